@@ -135,6 +135,23 @@ def run_history(scene, ops, sandbox, stats=None, live=None):
                 if n_warn < n_unknown:
                     return {'clause': 'unknown-key-without-warning', 'op': kind, 'pos': pos,
                             'detail': f'{n_unknown} unknown keys, {n_warn} AmpycloudWarning'}
+            elif kind == 'yaml_full':
+                # the documented route: copy the packaged file, edit it, feed it to set_prms
+                sub = os.path.join(sandbox, f'copy{pos}')
+                os.makedirs(sub)
+                ampycloud.copy_prm_file(save_loc=sub, which='default')
+                from ruamel.yaml import YAML
+                fname = os.path.join(sub, 'ampycloud_default_prms.yml')
+                with open(fname, encoding='utf-8') as fil:
+                    full = YAML(typ='safe').load(fil.read())
+                if typed_diff(full, dflt):
+                    return {'clause': 'copied-file-differs-from-defaults', 'op': kind, 'pos': pos,
+                            'detail': f'{typed_diff(full, dflt)[:6]}'}
+                prmspace.apply_in_place(full, _assign(op[1]))
+                prmspace.write_yaml(full, fname)
+                ampycloud.set_prms(fname)
+                model = model_adjust(model, copy.deepcopy(full))
+                bump('route.yaml_full_file')
             elif kind == 'percall':
                 assign = _insert_unknown(_assign(op[1]), op[2])
                 pristine = copy.deepcopy(assign)
@@ -249,6 +266,8 @@ def gen_block(rng, focus, dflt, tag, base=None):
     ops = [['reset', None], ['percall', aj, [], f'{tag}:A'],
            ['edit_global', aj], ['run'],
            ['reset', None], ['yaml', aj, unknown if rng.random() < 0.5 else []], ['run']]
+    if rng.random() < 0.35:     # full edited copy of the packaged file, on top of a poisoned global
+        ops += [['poison', pj], ['yaml_full', aj], ['run']]
     tops = sorted({q[0] for q in a})
     ops.append(['reset', rng.choice([None, tops, tops[0]])] if rng.random() < 0.7
                else ['reset', None])
